@@ -57,6 +57,13 @@ Definition verify_certificate_patched : list string :=
 Definition sites_patched : list (string * list string) :=
   map (fun p => if String.eqb (fst p) "verify_certificate" then (fst p, verify_certificate_patched) else p) sites_pinned.
 
+Definition set_peer_certificate_patched : list string :=
+  ["R_AlertDecodeError"; "T_open"; "S_sub"; "S_sub"; "S_sub"; "S_sub"; "C_ValueError_InvalidVersion"; "R_AlertBadCertificate"; "T_close"].
+
+(* ... plus docs/C05-fix-9.patch *)
+Definition sites_patched9 : list (string * list string) :=
+  map (fun p => if String.eqb (fst p) "Context._set_peer_certificate" then (fst p, set_peer_certificate_patched) else p) sites_patched.
+
 Fixpoint strs_eqb (a b : list string) : bool :=
   match a, b with
   | [], [] => true
@@ -70,5 +77,6 @@ Fixpoint sites_eqb (a b : list (string * list string)) : bool :=
   | _, _ => false
   end.
 
-Theorem tls_sites_known : sites_eqb tls_sites sites_pinned || sites_eqb tls_sites sites_patched = true.
+Theorem tls_sites_known :
+  sites_eqb tls_sites sites_pinned || sites_eqb tls_sites sites_patched || sites_eqb tls_sites sites_patched9 = true.
 Proof. vm_compute. reflexivity. Qed.
